@@ -138,14 +138,21 @@ class World:
         self.ops_issued = 0
         self.stuck = False
         self.ended = False
+        self.others: List[Any] = []
         self.n_entering = 0
         self.pre_pause_status: Any = None
 
     # ---- hooks used by generated programs -------------------------------------------------
     def attach(self, proc: Any) -> None:
+        if self.proc is not None:
+            self.attach_other(proc)
+            return
         self.proc = proc
         proc.add_state_event_callback(state_machine.StateEventHook.ENTERED_STATE, self._entered)
         proc.add_state_event_callback(state_machine.StateEventHook.ENTERING_STATE, self._entering)
+
+    def attach_other(self, proc: Any) -> None:
+        self.others.append(proc)
 
     def _entering(self, sm: Any, hook: Any, state: Any) -> None:
         self.n_entering += 1
@@ -342,17 +349,20 @@ class World:
         return list(self.loop.contexts)
 
 
-def make_runner(cfg_for: Callable[[Any], Config], oracle_factory: Callable[[Any], Any],
-                base: type = plumpy.Process) -> Callable[[Any], Callable[[Chooser], ExecResult]]:
-    """Returns ``make_run(unit)`` for ``explore_units``.  ``unit`` is ``(program, listener_script)``."""
+def make_runner(cfg_for: Callable[[Any], Config], oracle_factory: Callable[[Any], Any], base: type = plumpy.Process,
+                cls_for: Optional[Callable[[Any], type]] = None,
+                world_cls: Optional[type] = None) -> Callable[[Any], Callable[[Chooser], ExecResult]]:
+    """Returns ``make_run(unit)`` for ``explore_units``.  ``unit`` is ``(program, listener_script)`` unless ``cls_for`` /
+    ``world_cls`` say otherwise."""
 
     def make_run(unit: Any) -> Callable[[Chooser], ExecResult]:
         cfg = cfg_for(unit)
-        cls = programs.make_class(unit[0], base)
+        cls = cls_for(unit) if cls_for is not None else programs.make_class(unit[0], base)
+        wcls = world_cls or World
 
         def run(chooser: Chooser) -> ExecResult:
             oracle = oracle_factory(unit)
-            world = World(chooser, cfg, unit, oracle)
+            world = wcls(chooser, cfg, unit, oracle)
             loop = world.loop
             loop.install()
             prev_env = programs.ENV
